@@ -47,6 +47,25 @@ BOOST_GIL_DEFINE_ALL_TYPEDEFS(32f, float32_t, lab)
 template <>
 struct default_color_converter_impl< lab_t, xyz_t >
 {
+private:
+    /// Inverse of forward_companding of the XYZ to LAB conversion, including its linear
+    /// segment: the cube alone maps the dark values back to (16/116)^3 and above,
+    /// black came back from lab as rgb (9,9,9)
+    /// \ref http://www.brucelindbloom.com/index.html?Eqn_Lab_to_XYZ.html
+    BOOST_FORCEINLINE
+    float32_t inverse_companding(float32_t value) const
+    {
+        if (value > 6.f/29.f)
+        {
+            return powf(value, 3.f);
+        }
+        else
+        {
+            return ((116.f * value - 16.f) * (27.f/24389.f));
+        }
+    }
+
+public:
     template <typename P1, typename P2>
     void operator()( const P1& src, P2& dst ) const
     {
@@ -56,16 +75,16 @@ struct default_color_converter_impl< lab_t, xyz_t >
         float32_t p = ((get_color(src, luminance_t()) + 16.f)/116.f);
 
         get_color(dst, y_t()) =
-                1.f * powf(p, 3.f);
+                1.f * inverse_companding(p);
 
         get_color(dst, x_t()) =
-                0.95047f * powf((p +
+                0.95047f * inverse_companding((p +
                                  (get_color(src, a_color_opponent_t())/500.f)
-                                 ), 3.f);
+                                 ));
         get_color(dst, z_t()) =
-                1.08883f * powf((p -
+                1.08883f * inverse_companding((p -
                                  (get_color(src, b_color_opponent_t())/200.f)
-                                 ), 3.f);
+                                 ));
     }
 };
 
